@@ -95,6 +95,8 @@ def _run_shard(binary, scn_file, out_base, seed, workdir, test="TestDrive", time
         parts.append(part)
         if rc == 0:
             break
+        if "race detected during execution of test" in err and "panic:" not in err and "fatal error:" not in err:
+            break  # the scenarios ran to the end; the race reports are collected below
         # the process died: find the scenario that was running
         done, running = 0, None
         lines = []
@@ -182,7 +184,27 @@ def run_harness(binary, scenarios, work, seed, nproc=None, test="TestDrive", ext
             infos.append(f.result())
     log("[harness] %d scenarios in %d shards, %.1fs, crashes=%d" % (
         len(scenarios), nproc, time.time() - t, sum(i["crashes"] for i in infos)))
-    return [tf for _, tf in jobs], infos
+    traces = [tf for _, tf in jobs]
+    # data races: find the scenarios that race by running the shard's scenarios one by one
+    racing = [i for i, inf in enumerate(infos) if inf["races"]]
+    if racing and tag != "solo":
+        found = 0
+        for i in racing:
+            for s in shards[i]:
+                t1, inf1 = run_harness(binary, [s], work, seed, nproc=1, test=test, extra_env=extra_env, tag="solo")
+                if inf1[0]["races"]:
+                    found += 1
+                    with open(t1[0], "a") as f:
+                        f.write(json.dumps({"ev": "race", "scn": s["id"], "seq": 0, "t": 0,
+                                            "report": inf1[0]["races"][0][:1500]}) + "\n")
+                    traces.append(t1[0])
+                if found >= 3:
+                    break
+            if found >= 3:
+                break
+        if not found:
+            log("[harness] race reports in %d shards did not reproduce in solo runs" % len(racing))
+    return traces, infos
 
 
 # ----------------------------------------------------------------------------
